@@ -7,6 +7,7 @@ import (
 	"context"
 
 	iec "github.com/nspcc-dev/neofs-node/internal/ec"
+	objectcore "github.com/nspcc-dev/neofs-node/pkg/core/object"
 	svcutil "github.com/nspcc-dev/neofs-node/pkg/services/object/util"
 	neofscrypto "github.com/nspcc-dev/neofs-sdk-go/crypto"
 	"github.com/nspcc-dev/neofs-sdk-go/netmap"
@@ -32,6 +33,7 @@ type VerifTargetPrm struct {
 	ECRules              []iec.Rule
 	Initial              *netmap.InitialPlacementPolicy
 	PostPlacement        PostPlacementReplicator
+	Fmt                  *objectcore.FormatValidator // content validator (TOMBSTONE/LINK on a container node); nil is fine for REGULAR/LOCK
 }
 
 // VerifTarget is a distributedTarget assembled field by field like Streamer.newDistrubutedWriter does
@@ -59,6 +61,7 @@ func VerifNewDistributedTarget(p VerifTargetPrm) *VerifTarget {
 		sessionSigner:           p.SessionSigner,
 		initialPolicy:           p.Initial,
 		postPlacementReplicator: p.PostPlacement,
+		fmt:                     p.Fmt,
 	}}
 }
 
